@@ -109,7 +109,16 @@ def Src(items, term, delay=0.0, first_delay=None):
 
             def reset(self, initial_state=None):
                 super().reset(initial_state)
-                self.pos = 0 if initial_state is None else initial_state["pos"]
+                s = vsched.CUR
+                live = s is not None and not s.closed and s.me() is not None
+                self.inside += 1
+                self.max_inside = max(self.max_inside, self.inside)
+                try:
+                    if live:
+                        s.switch()
+                    self.pos = 0 if initial_state is None else initial_state["pos"]
+                finally:
+                    self.inside -= 1
 
             def next(self):
                 s = S()
@@ -619,6 +628,23 @@ def _run_case(case, r, sc, weights, kill, probe_held, check_release, delay, op_b
                         except Exception as e:  # noqa: BLE001
                             s.ev("ret", 2, 0)
                             r.obs.append(("e", _err_kind(e)))
+                    elif op == "nexterr":
+                        # next() until it raises anything (the following op then runs right after the error)
+                        for _ in range(len(case["items"]) + 3):
+                            try:
+                                y = next(node)
+                                s.ev("ret", 0, y)
+                                r.obs.append(("i", y))
+                            except StopIteration:
+                                s.ev("ret", 1, 0)
+                                r.obs.append(("s",))
+                                break
+                            except VHang:
+                                raise
+                            except Exception as e:  # noqa: BLE001
+                                s.ev("ret", 2, 0)
+                                r.obs.append(("e", _err_kind(e)))
+                                break
                     elif op == "sd":
                         sd = node.state_dict()
                         it = sd["it_state"]
@@ -894,7 +920,7 @@ def _ko_stream(ctx: Ctx, case):
     if r.held_at is not None:
         ctx.fail("C12:held_exceeds", inp, r.held_at)
     if r.max_inside > 1:
-        ctx.fail("C12:two_threads_in_source", inp, f"{r.max_inside} threads were inside the source's next() at the same time")
+        ctx.fail("C12:two_threads_in_source", inp, f"{r.max_inside} threads were inside the source's next() / reset() at the same time")
     for l in r.leaks:
         ctx.fail(_leak_kind(l), inp, f"still alive after 5 virtual seconds of idling {l}")
     ctx.case("ko_pm_stream", case, r.n_timeouts > 0 or len(case["items"]) > 1)
@@ -1013,7 +1039,7 @@ def _ko_lifecycle(ctx: Ctx, case):
                  f"iterator had started (source delay {case.get('delay', 0.0)} s, join timeout {JOIN_TIMEOUT} s)")
         ctx.count("ko_pm:old_reader_after_reset")
     if r.max_inside > 1:
-        ctx.fail("C12:two_threads_in_source", inp, f"{r.max_inside} threads were inside the source's next() at the same time")
+        ctx.fail("C12:two_threads_in_source", inp, f"{r.max_inside} threads were inside the source's next() / reset() at the same time")
     # the epoch after a reset starts from the first item again and is complete (in order).  With a source slower than the
     # join timeout the known C12 defect also damages the epoch: that region is reported under C12 only.
     if "reset" in case["hist"] and case["in_order"] and r.hang is None and case.get("delay", 0.0) <= JOIN_TIMEOUT:
@@ -1156,6 +1182,17 @@ def run_ko(ctx: Ctx, scale: float = 1.0):
             c["sched"] = {"seed": rng.randrange(1 << 30), "adv": False, "starve": None}
             c["hist"] = ["next"] * rng.randrange(1, n) + ["reset"] + ["next"] * (n + 2)
             life.append(c)
+    # a process worker dies while the reader is inside a moderately slow source (below the join timeout), then reset():
+    # next() itself sets the stop flags when it reports the death, and the reset must still wait for the reader
+    for _ in range(int(ctx.n(16, 120) * scale) or 1):
+        N = rng.choice([1, 2])
+        n = rng.choice([4, 5, 6])
+        c = {"N": N, "mc": None, "f": rng.choice([0, 1, 2]), "in_order": True, "method": "process",
+             "items": list(range(10, 10 + n)), "term": "stop", "fail": [], "delay": rng.choice([0.25, 0.3, 0.4]),
+             "hist": ["nexterr", "reset"] + ["next"] * (n + 2),
+             "sched": {"seed": rng.randrange(1 << 30), "adv": False, "starve": None},
+             "kill": {"worker": rng.randrange(N), "at": rng.randrange(2, 14)}}
+        life.append(c)
     ctx.pmap(_ko_lifecycle, life)
     # process workers killed at every switch point
     kills = gen_kill_jobs(rng, int(ctx.n(14, 80) * scale) or 1, ctx.n(20, 40))
